@@ -517,3 +517,52 @@ theorem walk2_stops_at (env : Env) (t : Table) (h : Heap) (steps : List (String 
 theorem isSubseq_refl' (l : List Nat) : isSubseq l l = true := isSubseq_refl l
 
 end Glom.C01
+
+namespace Glom.C01
+open Glom
+
+/-! ### the access log stops with the walk -/
+
+/-- the segments after the one that ends the walk contribute nothing to the log -/
+theorem walkLog2_take (env : Env) (t : Table) (h : Heap) :
+    ∀ (steps : List (String × Val)) (k0 : Nat) (u : Val) (k : Nat),
+      (walk2 env t h steps k0 u).idx = some k →
+      walkLog2 env t h steps u = walkLog2 env t h (steps.take (k - k0 + 1)) u := by
+  intro steps
+  induction steps with
+  | nil => intro k0 u k hi; simp [walk2, WalkRes2.idx] at hi
+  | cons s rest ih =>
+    obtain ⟨op, arg⟩ := s
+    intro k0 u k hi
+    simp only [walk2] at hi
+    simp only [List.take_succ_cons, walkLog2]
+    cases hr : refStep env t h op u arg with
+    | ok v =>
+      rw [hr] at hi
+      simp only at hi
+      have hge := walk2_idx_ge env t h rest (k0 + 1) v k hi
+      have := ih (k0 + 1) v k hi
+      rw [show k - k0 = (k - (k0 + 1)) + 1 by omega]
+      simp only
+      rw [this]
+    | fail e => simp
+    | escapes e => simp
+    | beyond => simp
+    | noHandler => simp
+    | notAccess => simp
+
+/-! ### spec → steps -/
+
+theorem stepsOfParts2_append (a b : List Part2) :
+    stepsOfParts2 (a ++ b) = stepsOfParts2 a ++ stepsOfParts2 b := by
+  induction a with
+  | nil => simp [stepsOfParts2]
+  | cons p r ih => simp [stepsOfParts2, ih]
+
+theorem stepsOfParts2_segs (vs : List Val) :
+    stepsOfParts2 (vs.map Part2.seg) = vs.map (fun v => ("P", v)) := by
+  induction vs with
+  | nil => simp [stepsOfParts2]
+  | cons v r ih => simp [stepsOfParts2, stepsOfPart2, ih]
+
+end Glom.C01
